@@ -39,13 +39,22 @@ type SeqSys[T comparable] struct {
 	U      []T
 	Poison T
 	N      int // live-size bound
+	// Deep mode: every pushed value is fresh (Gen(counter)), of a type the fingerprint drops.
+	Gen func(i int) T
+	// JSONs: arrays (universe indices, in ToJSON order) offered as FromJSON operations, so that the
+	// search also starts from loaded states (a second way to fill the container)
+	JSONs [][]int
 }
 
 func (s *SeqSys[T]) Name() string {
+	n := s.Kind
 	if s.Kind == "circularbuffer" {
-		return fmt.Sprintf("%s(cap=%d)", s.Kind, s.Cap)
+		n = fmt.Sprintf("%s(cap=%d)", s.Kind, s.Cap)
 	}
-	return s.Kind
+	if s.Gen != nil {
+		n += "/deep"
+	}
+	return n
 }
 func (s *SeqSys[T]) Props() []string { return []string{"C05", "C15"} }
 
@@ -81,9 +90,17 @@ func (s *SeqSys[T]) api() *seqAPI[T] {
 }
 
 type seqBox[T comparable] struct {
-	sys *SeqSys[T]
-	a   *seqAPI[T]
-	ref []T // in removal order
+	sys  *SeqSys[T]
+	a    *seqAPI[T]
+	ref  []T // in removal order
+	next int
+}
+
+func (b *seqBox[T]) pushVal(u int) T {
+	if b.sys.Gen != nil {
+		return b.sys.Gen(b.next + 1)
+	}
+	return b.sys.U[u]
 }
 
 func (s *SeqSys[T]) New() Inst { return s.newBox() }
@@ -94,18 +111,36 @@ func (s *SeqSys[T]) newBox() *seqBox[T] {
 func (b *seqBox[T]) Ops() []Op {
 	var ops []Op
 	if b.a.capa > 0 || len(b.ref) < b.sys.N {
-		for i := range b.sys.U {
-			ops = append(ops, op("push", i))
+		if b.sys.Gen != nil {
+			ops = append(ops, op("push", 0))
+		} else {
+			for i := range b.sys.U {
+				ops = append(ops, op("push", i))
+			}
 		}
 	}
 	ops = append(ops, op("pop"), op("peek"), op("clear"))
+	for ji, t := range b.sys.JSONs {
+		if b.a.capa > 0 || len(t) <= b.sys.N {
+			ops = append(ops, op("fromjson", ji))
+		}
+	}
 	return ops
+}
+
+func (b *seqBox[T]) jsonText(ji int) []byte {
+	vs := make([]T, 0, len(b.sys.JSONs[ji]))
+	for _, u := range b.sys.JSONs[ji] {
+		vs = append(vs, b.sys.U[u])
+	}
+	d, _ := json.Marshal(vs)
+	return d
 }
 
 func (b *seqBox[T]) Describe(o Op) string {
 	switch o.N {
 	case "push":
-		return fmt.Sprintf("%s(%v)", b.a.pushN, b.sys.U[o.A[0]])
+		return fmt.Sprintf("%s(%v)", b.a.pushN, b.pushVal(o.A[0]))
 	case "pop":
 		return b.a.popN + "()"
 	case "peek":
@@ -116,7 +151,7 @@ func (b *seqBox[T]) Describe(o Op) string {
 	return o.String()
 }
 
-func (b *seqBox[T]) Size() int { return len(b.ref) }
+func (b *seqBox[T]) Size() int   { return len(b.ref) }
 func (b *seqBox[T]) Key() string { return Canon(CanonOpts{}, b.a.obj) }
 func (b *seqBox[T]) Obs() string { return fmtVals(b.ref) }
 
@@ -136,7 +171,8 @@ func (b *seqBox[T]) Do(o Op) *Viol {
 	var zero T
 	switch o.N {
 	case "push":
-		v := b.sys.U[o.A[0]]
+		v := b.pushVal(o.A[0])
+		b.next++
 		b.a.push(v)
 		if b.a.lifo {
 			b.ref = append([]T{v}, b.ref...)
@@ -174,6 +210,14 @@ func (b *seqBox[T]) Do(o Op) *Viol {
 	case "clear":
 		b.a.clear()
 		b.ref = nil
+	case "fromjson":
+		data := b.jsonText(o.A[0])
+		if err := b.a.obj.(interface{ FromJSON([]byte) error }).FromJSON(data); err != nil {
+			return viol(tag("C05", "C12"), "mismatch", "FromJSON(%s) failed: %v", data, err)
+		}
+		if !b.LoadRef(data) {
+			panic("tool error: reference cannot decode its own array " + string(data))
+		}
 	default:
 		panic("seq op " + o.N)
 	}
@@ -241,9 +285,13 @@ func (b *seqBox[T]) Readers() []Reader {
 	}
 	return rs
 }
-func (b *seqBox[T]) Fresh() Box          { return b.sys.newBox() }
-func (b *seqBox[T]) JSONKind() string    { return "array" }
-func (b *seqBox[T]) Unordered() bool     { return false }
+func (b *seqBox[T]) Fresh() Box {
+	nb := b.sys.newBox()
+	nb.next = b.next // deep mode: the fresh-value counter continues
+	return nb
+}
+func (b *seqBox[T]) JSONKind() string      { return "array" }
+func (b *seqBox[T]) Unordered() bool       { return false }
 func (b *seqBox[T]) ContainerName() string { return b.a.name }
 func (b *seqBox[T]) Slices() []SliceObs {
 	return []SliceObs{{"Values", func() any { return b.a.values() }}}
